@@ -374,12 +374,17 @@ class Sim:
         t = self.profile._resubscriber_task
         return t is not None and not t.done()
 
+    def any_task_pending(self) -> bool:
+        """observable form of "the renewal task has ended": no task at all is pending on the loop between two caller
+        operations (the harness itself runs outside tasks), whatever attribute the profile keeps it in"""
+        return any(not t.done() for t in asyncio.all_tasks(self.loop))
+
     def snap(self) -> None:
         subs = [self.sid_tok(s) for s in self.profile._subscriptions]
         routed = sorted((self.sid_tok(s) for s in list(self.handler._subscriptions.keys())), key=lambda x: (len(x), x))
         self.lines.append(
             f"o snap {ms(self.loop.time())} {','.join(subs) or '~'} {','.join(routed) or '~'} "
-            f"{'T' if self.task_alive() else 'F'} {'T' if self.profile.profile_device.available else 'F'}")
+            f"{'T' if (self.task_alive() or self.any_task_pending()) else 'F'} {'T' if self.profile.profile_device.available else 'F'}")
 
     def on_event(self, service, state_variables) -> None:
         path = "/" + service.event_sub_url.split("://", 1)[1].split("/", 1)[1]
